@@ -158,6 +158,8 @@ class Summary:
     unresolved: list = field(default_factory=list)
     dirty_raises: dict = field(default_factory=dict)  # exc -> origins mutated before it may escape
     mut_sub: set = field(default_factory=set)  # params of which a *sub-object* (not only the object itself) is mutated
+    calls: list = field(default_factory=list)  # (callee summary, {callee param: caller-relative origins})
+    skey: tuple = ()
 
 
 class Dirty:
@@ -588,6 +590,8 @@ class _Fn:
                     env[f.value.id] = old.stored(put)
                 if recv.own:
                     fld = f.value.attr if isinstance(f.value, ast.Attribute) else (f.value.id if isinstance(f.value, ast.Name) else None)
+                    if fld == "self" and recv.cls and "list" in self.prog.classes[recv.cls].bases:
+                        fld = "<self>"
                     owner_cls = None
                     if isinstance(f.value, ast.Attribute):
                         ov, _ = self.ev(f.value.value, env, handlers, dirty)
@@ -595,9 +599,12 @@ class _Fn:
                     dirty = self.mutate(dirty, recv, e, "call ." + m, tcls=owner_cls or recv.cls, fld=fld)
                 return recv.reach(), dirty
             res = NONE
+            d0, acc = dirty, dirty
             for t in targets:
-                r, dirty = self.apply(t, [recv] + args, kw, e, handlers, dirty)
+                r, di = self.apply(t, [recv] + args, kw, e, handlers, d0)
+                acc = self._merge_dirty(acc, di)
                 res = res | r
+            dirty = acc
             if not targets:
                 res = Val(frozenset(), recv.deep | allv.deep)
                 if m not in BUILTIN_QUIET_METHODS and m not in MUTATORS and recv.cls is not None:
@@ -676,6 +683,8 @@ class _Fn:
         self.S.callees.add(key)
         amap = dict(zip(params, args))
         amap.update(kw)
+        self.S.calls.append((s, {p_: (a.own | (a.deep if not a.own else frozenset())) for p_, a in amap.items()
+                                 if not (ctor and p_ == "self")}))
         def arg_origins(p_):
             """caller-relative origins of what the callee mutates under parameter p_: the argument's own objects, or --
             for a fresh wrapper built by the caller -- what it shares (deep) when the callee mutates a sub-object."""
@@ -846,6 +855,15 @@ class _Fn:
             g = self.prog.method(base.cls, dunder) if base.cls else None
             if g is not None:
                 _, dirty = self.apply(g.key, [base, NONE, v], {}, node, handlers, dirty)
+            elif base.cls is None and base.own and isinstance(t.value, ast.Name) and self.is_doc(base.own) \
+                    and isinstance(t.slice, ast.Name) and not self._index_like(t.slice, env):
+                # a document object of unknown class indexed by a key: any package mapping may be the receiver
+                d0, acc = dirty, dirty
+                for gg in self.prog.all_functions():
+                    if gg.cls and gg.name == dunder and gg.kind == "method" and gg.cls != self.f.cls:
+                        _, di = self.apply(gg.key, [base.with_cls(gg.cls), NONE, v], {}, node, handlers, d0)
+                        acc = self._merge_dirty(acc, di)
+                dirty = acc
             elif base.own:
                 reg = all(o.startswith("G:") for o in base.own)
                 fld = t.value.attr if isinstance(t.value, ast.Attribute) else (t.value.id if isinstance(t.value, ast.Name) else None)
@@ -1076,6 +1094,21 @@ class _Fn:
             return (d if ds else dirty), allterm
         return dirty, False
 
+    def _index_like(self, name_node, env) -> bool:
+        """heuristic: a Name used as subscript that is an enumerate()/range() loop index or an int-annotated variable"""
+        nm = name_node.id
+        for n in ast.walk(self.f.node):
+            if isinstance(n, ast.For) and isinstance(n.iter, ast.Call) and isinstance(n.iter.func, ast.Name) \
+                    and n.iter.func.id in ("enumerate", "range"):
+                tgt = n.target.elts[0] if isinstance(n.target, ast.Tuple) and n.iter.func.id == "enumerate" else n.target
+                if isinstance(tgt, ast.Name) and tgt.id == nm:
+                    return True
+            if isinstance(n, ast.AnnAssign) and isinstance(n.target, ast.Name) and n.target.id == nm and "int" in ast.unparse(n.annotation):
+                return True
+            if isinstance(n, ast.Assign) and any(isinstance(t, ast.Name) and t.id == nm for t in n.targets) and isinstance(n.value, ast.BinOp):
+                return True
+        return False
+
     def _tuple_return_classes(self, value):
         """classes of the components of `-> tuple[A, B]` for a direct call of a package function"""
         if not (isinstance(value, ast.Call) and isinstance(value.func, ast.Name)):
@@ -1203,3 +1236,41 @@ class _Fn:
                 out[k] = a | b
         env.clear()
         env.update(out)
+
+
+def relevant_mutation_sites(eng: Effects, roots: list) -> list:
+    """Direct document-mutation sites (not the 'via call' echoes) in the closure of `roots` whose mutated object may
+    be owned by a root's parameters (document state of the entry points), found by propagating relevance of
+    parameters down the recorded call edges."""
+    sums = [eng.summarize(r) for r in roots]
+    rel = {id(s): set(s.mut_params) | set(s.reg_params) for s in sums}
+    byid = {id(s): s for s in eng.all_summaries()}
+    for s in sums:
+        byid[id(s)] = s
+    changed = True
+    while changed:
+        changed = False
+        for s in list(byid.values()):
+            if id(s) not in rel:
+                continue
+            for cs, mp in s.calls:
+                byid.setdefault(id(cs), cs)
+                for p_, orig in mp.items():
+                    if any(o in rel[id(s)] or o.startswith("D:") for o in orig):
+                        r = rel.setdefault(id(cs), set())
+                        if p_ not in r:
+                            r.add(p_)
+                            changed = True
+    out, seen = [], set()
+    for s in byid.values():
+        if id(s) not in rel:
+            continue
+        for m in s.mut_sites:
+            if m.via is not None or m.kind == "registry":
+                continue
+            if m.origins & rel[id(s)] or any(o.startswith("D:") for o in m.origins):
+                k = (m.func, m.text)
+                if k not in seen:
+                    seen.add(k)
+                    out.append(m)
+    return out
